@@ -1,0 +1,39 @@
+//go:build verif
+
+package secec
+
+import (
+	"io"
+
+	"gitlab.com/yawning/secp256k1-voi"
+)
+
+// verifForcingDrbg is the RFC 6979 generator with some of its outputs
+// replaced: the embedded generator is advanced exactly as usual on every
+// Read, then the delivered bytes are overwritten when an override is queued
+// for that read.  Embedding the concrete generator keeps its whole method
+// set, so the sampler talks to this value exactly as it talks to the real
+// generator inside sign().  This is the only way to make the sampler reject
+// a candidate of the *real* generator (its outputs come out of HMAC; an
+// out-of-range one has probability 2^-128) and observe what comes next.
+type verifForcingDrbg struct {
+	*drbgRFC6979
+	overrides [][]byte
+	reads     int
+}
+
+func (f *verifForcingDrbg) Read(dst []byte) (int, error) {
+	n, err := f.drbgRFC6979.Read(dst)
+	if f.reads < len(f.overrides) && f.overrides[f.reads] != nil {
+		copy(dst, f.overrides[f.reads])
+	}
+	f.reads++
+	return n, err
+}
+
+// VerifNewForcingDrbgRFC6979 returns the RFC 6979 generator for (x, e) whose
+// i-th read delivers overrides[i] instead of the generated block when
+// overrides[i] is non-nil.
+func VerifNewForcingDrbgRFC6979(x, e *secp256k1.Scalar, overrides [][]byte) io.Reader {
+	return &verifForcingDrbg{drbgRFC6979: newDrbgRFC6979(x, e).(*drbgRFC6979), overrides: overrides}
+}
